@@ -458,9 +458,11 @@ impl<'a> Exec<'a> {
                         }
                     }
                 }
-                if start > end {
-                    // an empty range: whether the level-4 table is looked at (the constructor of a
-                    // fresh mapper does) is immaterial
+                // an empty range, or a range that lies wholly under the recursive slot (which clean-up
+                // never enters): whether the level-4 table is looked at at all is immaterial (the
+                // constructor of a fresh mapper does, a long-lived mapper need not)
+                let only_rec_slot = start <= end && (start >> 39) & 0x1ff == r as u64 && (end >> 39) & 0x1ff == r as u64 && (end - start) >> 39 == 0;
+                if start > end || only_rec_slot {
                     visited.remove(&Path::ROOT);
                     expected.remove(&Path::ROOT);
                 }
